@@ -27,6 +27,10 @@ CONSTANTS Streams,      \* set of stream names (strings)
           Floor,        \* resume floor: clock initialised from the seek position (0 = fresh start)
           Seek,         \* Seek[s] : checkpoint time the stream's collection is resumed from (0 = none); all 0 = no Start steps
           CollOf,       \* CollOf[s] : name of the stream's collection (for the plan output)
+          PChanOf,      \* PChanOf[s] : source physical channel of the stream (one channel handler per source pchannel; several
+                        \* handlers share the downstream channel when the source has more physical channels than the target)
+          InitRaises,   \* TRUE = as built: the handler of a further source pchannel only RAISES the clock of the downstream
+                        \* channel to its seek position (InitTSInfo on an existing entry); FALSE (negative control): it assigns it
           JoinLifts,
           StartAllFirst, \* TRUE = repaired: nothing is read before every collection of the channel has been started;
                          \* FALSE = as built: a collection started later with a higher checkpoint lifts the clock too late
@@ -69,11 +73,15 @@ Reset(p, new) == [p EXCEPT !.ms = [i \in 1..Len(p.ms) |-> new + DeltaAt(p.ms, i)
 Start(s) == /\ s \notin started
             /\ started' = started \cup {s}
             /\ cts' = IF started = {} THEN Seek[s]                         \* startReadChannel: InitTSInfo(cts = seek ts)
+                       ELSE IF \A x \in started : PChanOf[x] # PChanOf[s]    \* a new handler on the same downstream channel:
+                              THEN (IF Seek[s] = 0 THEN cts                  \* InitTSInfo on the existing entry
+                                    ELSE IF InitRaises THEN (IF cts = 0 \/ cts < Seek[s] THEN Seek[s] ELSE cts)
+                                    ELSE Seek[s])
                        ELSE IF JoinLifts THEN Collect(cts, Seek[s])         \* AddCollection: CollectTS(seek ts)
                        ELSE cts
             /\ fl' = Max(fl, Seek[s])
             /\ hist' = Append(hist, [op |-> "start", c |-> CollOf[s],
-                                     seek |-> IF Seek[s] > 0 THEN <<[ch |-> "sa", id |-> "ckpt-" \o CollOf[s], ts |-> Seek[s]]>> ELSE <<>>])
+                                     seek |-> IF Seek[s] > 0 THEN <<[ch |-> PChanOf[s], id |-> "ckpt-" \o CollOf[s], ts |-> Seek[s]]>> ELSE <<>>])
             /\ UNCHANGED <<idx, pc, loc, lts, out, cseq>>
 
 Feed(s) == /\ pc[s] = "idle" /\ idx[s] < Len(Script[s]) /\ s \in started
